@@ -102,3 +102,22 @@ func TestC11RistDecodeMath(t *testing.T) {
 		}
 	}
 }
+
+// MAP at its degenerate inputs still lands on the curve and its image decodes
+// (the RFC's formulas are total); the v = 0 inputs exist.
+func TestC11MapSpecials(t *testing.T) {
+	sp := c11MapSpecials()
+	if len(sp) < 11 {
+		t.Fatalf("expected the two v = 0 root pairs, got %d specials", len(sp))
+	}
+	for _, v := range sp {
+		p := ref.RistMap(v)
+		if !p.OnCurve() {
+			t.Fatalf("MAP(%x) off curve", ref.FEncode(v))
+		}
+		enc := ref.RistEncode(p)
+		if q, ok := ref.RistDecode(enc); !ok || !ref.RistEqual(p, q) {
+			t.Fatalf("MAP(%x) image does not round-trip", ref.FEncode(v))
+		}
+	}
+}
